@@ -73,8 +73,9 @@ void _Z9qBadAllocv(void) { ASSERT(0, "qBadAlloc (out of scope)"); ASSUME(0); }
 /* Reference counting of QString on destruction is dropped (class-level override of the inline ~QString, as in harness C12):
    string blocks of the model are never recycled, and an over-approximated reference count only makes the copy-on-write paths
    of the string model copy where Qt would modify in place - value semantics are unchanged. */
-void _ZN7QStringD2Ev(char *self) { }
-void _ZN7QStringD1Ev(char *self) { }
+void vp_c17_phase(void);
+void _ZN7QStringD2Ev(char *self) { vp_c17_phase(); }
+void _ZN7QStringD1Ev(char *self) { vp_c17_phase(); }
 /* known finding D12 (JMI / call-invite elements parsed in the public block): listed in known_findings.txt <=> -DKF_d12_jmi_callinvite */
 uint8_t vp_c17_kf_d12(void) {
 #ifdef KF_d12_jmi_callinvite
@@ -96,3 +97,14 @@ void _ZN7QVectorI11QStringViewEC2ESt16initializer_listIS0_E(char *self, char *ar
   struct c17_vsv *b = malloc(sizeof(struct c17_vsv)); ASSUME(b != 0); c17_vhdr(&b->h, C17_VCAP); b->h.f1 = (uint32_t)n; struct T_class_QStringView *s = (struct T_class_QStringView*)arr;
   for (uint32_t i = 0; i < C17_VCAP; i++) { if (i >= n) break; char *p = s[i].f1; uint32_t len = vpl_strlen16((uint16_t*)p); ASSERT(s[i].f0 == len, "C17 model: initializer view is not a whole literal"); b->data[i].f0 = len; b->data[i].f1 = p; }
   *(char**)self = (char*)b; }
+/* Phase boundary (performance): cbmc's "dead object"/"deallocated" bookkeeping symbols accumulate every local that ever went out of
+   scope; each pointer check of the translated code is simplified against that ever-growing set (measured: > 80 % of symex time).
+   The harness forgets the set between phases (after a serialization / a parse has returned).  Effect on the claim: a dereference
+   of a stack object or freed block that died in an EARLIER phase is no longer reported as a pointer-safety failure; C17's own
+   assertions and all other checks are unaffected. */
+#ifdef __CPROVER__
+extern const void *__CPROVER_dead_object; extern const void *__CPROVER_deallocated;
+void vp_c17_phase(void) { __CPROVER_dead_object = 0; __CPROVER_deallocated = 0; }
+#else
+void vp_c17_phase(void) { }
+#endif
